@@ -1,14 +1,14 @@
 #!/bin/bash
 # tools/run_all.sh [quick|thorough] [parallel] : run every registered check (default: one after the other;
 # with <parallel> N properties at a time), summarise in /tmp/verif_run_summary.txt
-T=${1:-quick}; PAR=${2:-1}
+T=${1:-quick}; PAR=${2:-1}; JOBS=16; [ "$PAR" -gt 1 ] && JOBS=10
 cd /verif
 ./setup.sh || exit 3
 : > /tmp/verif_run_summary.txt
 run_one() {
   n=$1; T=$2
   s=$(date +%s)
-  ./check C$n --tier $T > /tmp/verif_run_C$n.log 2>&1; rc=$?
+  ./check C$n --tier $T --jobs $JOBS > /tmp/verif_run_C$n.log 2>&1; rc=$?
   e=$(date +%s)
   echo "C$n rc=$rc $((e-s))s $(grep -E '^C[0-9]+ tier=' /tmp/verif_run_C$n.log | cut -c1-150) $(grep -c '^KNOWN-FINDING' /tmp/verif_run_C$n.log) known" | tee -a /tmp/verif_run_summary.txt
 }
